@@ -431,6 +431,9 @@ func (f File) Generate(inputWriter io.Writer, settings GenerateSettings) error {
 	if err := f.checkFieldNames(settings); err != nil {
 		return fmt.Errorf("cannot generate file: %w", err)
 	}
+	if err := f.checkTopLevelNames(settings); err != nil {
+		return fmt.Errorf("cannot generate file: %w", err)
+	}
 	settings.typeMarshallers = f.typeMarshallers()
 	settings.typeByters = f.typeByters()
 	settings.typeByteReaders = f.typeByteReaders(settings)
@@ -899,6 +902,75 @@ func (f File) checkFieldNames(settings GenerateSettings) error {
 		}
 	}
 	return nil
+}
+
+// checkTopLevelNames rejects a schema for which two of the package-level identifiers this
+// generator would write coincide (the output could not compile): the types, their Make... /
+// New... helpers and opcode constants, the enum options and the constants. Definitions that
+// belong to another package (a Namespace) are not written and not counted.
+func (f File) checkTopLevelNames(settings GenerateSettings) error {
+	seen := map[string]string{}
+	var clash error
+	add := func(id, what string) {
+		if other, ok := seen[id]; ok && clash == nil {
+			clash = fmt.Errorf("%s and %s would both be named %s", other, what, id)
+		}
+		seen[id] = what
+	}
+	record := func(kind, name string, opCode uint32, readOnly bool) {
+		exposed := exposeName(name, settings)
+		add(exposed, kind+" "+name)
+		add(exposePrefix("Make", settings)+exposed, "the Make function of "+name)
+		add(exposePrefix("Make", settings)+exposed+"FromBytes", "the MakeFromBytes function of "+name)
+		if settings.GenerateUnsafeMethods {
+			add(exposePrefix("MustMake", settings)+exposed+"FromBytes", "the MustMakeFromBytes function of "+name)
+		}
+		if readOnly {
+			add(exposePrefix("New", settings)+exposed, "the New function of "+name)
+		}
+		if opCode != 0 {
+			add(exposed+"OpCode", "the opcode constant of "+name)
+		}
+	}
+	for _, en := range f.Enums {
+		if en.Namespace != "" {
+			continue
+		}
+		exposed := exposeName(en.Name, settings)
+		add(exposed, "enum "+en.Name)
+		for _, opt := range en.Options {
+			add(exposed+"_"+opt.Name, "option "+opt.Name+" of enum "+en.Name)
+		}
+	}
+	for _, st := range f.Structs {
+		if st.Namespace == "" {
+			record("struct", st.Name, st.OpCode, st.ReadOnly)
+		}
+	}
+	for _, msg := range f.Messages {
+		if msg.Namespace == "" {
+			record("message", msg.Name, msg.OpCode, false)
+		}
+	}
+	for _, un := range f.Unions {
+		if un.Namespace != "" {
+			continue
+		}
+		record("union", un.Name, un.OpCode, false)
+		for _, i := range sortedIndices(un.Fields) {
+			ufd := un.Fields[i]
+			if ufd.Struct != nil {
+				record("struct", ufd.Struct.Name, ufd.Struct.OpCode, ufd.Struct.ReadOnly)
+			}
+			if ufd.Message != nil {
+				record("message", ufd.Message.Name, ufd.Message.OpCode, false)
+			}
+		}
+	}
+	for _, con := range f.Consts {
+		add(exposeName(con.Name, settings), "const "+con.Name)
+	}
+	return clash
 }
 
 // goPredeclared lists Go's predeclared types and constants, the builtin functions that
